@@ -648,7 +648,7 @@ func StartRig(engine, profile string, forced bool, timeoutMs int, noResponseTime
 func StartRigBuf(engine, profile string, forced bool, timeoutMs int, streamBuffer int, noResponseTimeout ...bool) (*Rig, error) {
 	b := NewBackend()
 	prio := 100
-	s, err := stack.Start(stack.Opts{Engine: engine, Balancer: "priority", Profile: profile, Mutate: func(cfg *config.Config) {
+	s, err := stack.Start(stack.Opts{Vary: stack.VaryFor("c18.rig", engine, profile, forced, timeoutMs, streamBuffer, noResponseTimeout), Engine: engine, Balancer: "priority", Profile: profile, Mutate: func(cfg *config.Config) {
 		cfg.Proxy.ReadTimeout = time.Duration(timeoutMs) * time.Millisecond
 		if len(noResponseTimeout) > 0 && noResponseTimeout[0] {
 			cfg.Proxy.ResponseTimeout = 0
